@@ -91,6 +91,20 @@ def r1_r2_cross_val(ctx):
             ctx.check("R8", "%s|dispatch-%s|%s" % (qn, nm, tag), True if v == ("param", nm) else (False if v is None or (isinstance(v, tuple) and is_const(v)) else None),
                       "%s is forwarded to dispatch" % nm, bad="dispatch receives %s=%s" % (nm, show(v) if isinstance(v, tuple) else "the default"), fn=qn)
         a = d[2]
+        # the task receives nothing but fit_score's four arguments: anything else is interpreted by the executor (dask.delayed / Client.submit),
+        # not by fit_score - e.g. dask_key_name / key: tasks with equal keys are ONE task to dask, so a key that does not identify the
+        # estimator and the data makes the scores of different calls collapse into one
+        extras = [(k, v) for k, v in d[3]]
+        keyed = [(k, v) for k, v in extras if k in ("dask_key_name", "key", "name")] + \
+                [(kk[1], vv) for k, v in extras if k is None and v[0] == "dict" for kk, vv in v[1] if kk is not None and is_const(kk) and kk[1] in ("dask_key_name", "key", "name")] + \
+                [(kk[1], vv) for k, v in extras if k is None and v[0] == "ifexp" for br in (v[2], v[3]) if br[0] == "dict" for kk, vv in br[1] if kk is not None and is_const(kk) and kk[1] in ("dask_key_name", "key", "name")]
+        if keyed:
+            kname, kval = keyed[0]
+            dep = any(x in (("param", "estimator"), ("param", "coordinates"), ("param", "data")) for x in walk(kval) if isinstance(x, tuple))
+            ctx.check("R8", "%s|task-identity|%s" % (qn, tag), None if dep else False, "dispatched tasks are identified by their inputs",
+                      bad="every task is given the executor key %s=%s, which depends only on the fold number: tasks of different cross_val_score calls share keys and dask computes ONE of them for all (identical scores for different models)" % (kname, show(kval)[:50]), fn=qn)
+        elif extras:
+            ctx.add("R8", "%s|task-identity|%s" % (qn, tag), "UNDECIDED", "the dispatched call receives extra keyword arguments (%s) that the executor, not fit_score, interprets" % show(extras[0][1])[:60], fn=qn)
         if len(a) != 4:
             ctx.add("R2", "%s|worker-arguments|%s" % (qn, tag), "UNDECIDED", "fit_score is called with %d arguments" % len(a), fn=qn)
             continue
